@@ -508,23 +508,28 @@ impl ZoneHarness {
         Ok(())
     }
 
-    /// "Build" by the route the model names (see Gen_ZoneStore.tla)
-    fn build_routed(&mut self, op: &Value) -> Result<Zone, String> {
-        self.ensure_zfile(op)?;
-        let ap = Self::apex_sp(op);
-        // records the model's zone file holds from the start (directed generators)
+    /// records the model's zone file holds from the start (directed generators)
+    fn sync_zfile(&mut self, ap: &StoredName) -> Result<(), String> {
         let todo: Vec<Value> = self.zf.iter().filter(|r| !self.zfile_has.contains(r)).cloned().collect();
         for r in todo {
             let mut b = NameBuilder::new_bytes();
             for l in name_of(&r[0]).iter_labels().take(r[0].as_array().map(|a| a.len()).unwrap_or(0)) {
                 b.append_label(l.as_slice()).unwrap();
             }
-            let owner: StoredName = b.append_origin(&ap).unwrap();
+            let owner: StoredName = b.append_origin(ap).unwrap();
             let (t, x) = (r[1].as_str().unwrap_or("").to_string(), r[2].as_u64().unwrap_or(0));
             self.zfile.as_mut().unwrap().insert(record_at(owner.clone(), Class::IN, &t, x)).map_err(|e| format!("zonefile insert: {}", e))?;
             self.zfile_has.push(r.clone());
             self.zf_spelled.push((owner, t, x));
         }
+        Ok(())
+    }
+
+    /// "Build" by the route the model names (see Gen_ZoneStore.tla)
+    fn build_routed(&mut self, op: &Value) -> Result<Zone, String> {
+        self.ensure_zfile(op)?;
+        let ap = Self::apex_sp(op);
+        self.sync_zfile(&ap)?;
         match op["br"].as_str().unwrap_or("new") {
             "text" => build_from_text(&zone_text(&self.zf_spelled)),
             "builder" => {
@@ -564,6 +569,15 @@ impl ZoneHarness {
                 }
                 if let Err(e) = self.ensure_zfile(op) {
                     return json!({"build_error": e});
+                }
+                if let Some(z) = op["zf"].as_array() {
+                    // the zone file the model holds at this point (directed generators
+                    // start from a populated one)
+                    self.zf = z.clone();
+                    let ap = Self::apex_sp(op);
+                    if let Err(e) = self.sync_zfile(&ap) {
+                        return json!({"build_error": e});
+                    }
                 }
                 let owner = spelled(op, "sn", &op["n"]);
                 let class = if op["cls"] == "CH" { Class::CH } else { Class::IN };
